@@ -27,22 +27,23 @@ VARIABLES l,
           base,                              \* [select |-> id, insert |-> id] learned from the setup
           cols, mids,                        \* per handle ("p", "c"): announced column layout; set of metadata ids it may hold
           cached,                            \* the CachingSession holds its handle of the SELECT
+          snap,                              \* mids when a pair of simultaneous executions began (the second one's first request was sent then)
           op,                                \* current operation [op, hd (handle), node, pk, frames seen, EXECUTEs seen, pend, pages, failed]
           bad                                \* the current history was already reported
-vars == <<l, ext, skipopt, ver, lay, prep, salt, base, cols, mids, cached, op, bad>>
+vars == <<l, ext, skipopt, ver, lay, prep, salt, base, cols, mids, cached, snap, op, bad>>
 
-Idle == [op |-> "idle", hd |-> "p", node |-> 0, pk |-> 0, n |-> 0, ne |-> 0, pend |-> <<0, "none">>, pages |-> << >>, failed |-> 0, first |-> << >>]
+Idle == [op |-> "idle", pair |-> 0, hd |-> "p", node |-> 0, pk |-> 0, n |-> 0, ne |-> 0, pend |-> <<0, "none">>, pages |-> << >>, failed |-> 0, first |-> << >>]
 NoLayout == [extra |-> 99, bgen |-> 99]
 NoBase == [select |-> << >>, insert |-> << >>, insert2 |-> << >>]
 TraceInit == /\ l = 1 /\ ext = <<0, 0>> /\ skipopt = 0 /\ ver = 1 /\ lay = Layout0 /\ prep = <<{}, {}>> /\ salt = <<0, 0>>
-             /\ base = NoBase /\ cols = [p |-> NoLayout, c |-> NoLayout] /\ mids = [p |-> {}, c |-> {}] /\ cached = FALSE /\ op = Idle /\ bad = FALSE /\ TLCSet(1, 1)
+             /\ base = NoBase /\ cols = [p |-> NoLayout, c |-> NoLayout] /\ mids = [p |-> {}, c |-> {}] /\ cached = FALSE /\ snap = [p |-> {}, c |-> {}] /\ op = Idle /\ bad = FALSE /\ TLCSet(1, 1)
 
 Report(what) == IF bad THEN TRUE ELSE PrintT(<<"BAD", Rec[l].h, l, what>>)
 \* judge a condition: a failure marks the history bad (reported once), the walk continues
 Chk(c, what) == IF c THEN bad' = bad ELSE Report(what) /\ bad' = TRUE
 
 Reset(e) == /\ ext' = e.ext /\ skipopt' = e.skip /\ ver' = 1 /\ lay' = Layout0 /\ prep' = <<{}, {}>> /\ salt' = <<0, 0>>
-            /\ base' = NoBase /\ cols' = [p |-> NoLayout, c |-> NoLayout] /\ mids' = [p |-> {}, c |-> {}] /\ cached' = FALSE /\ op' = Idle /\ bad' = FALSE
+            /\ base' = NoBase /\ cols' = [p |-> NoLayout, c |-> NoLayout] /\ mids' = [p |-> {}, c |-> {}] /\ cached' = FALSE /\ snap' = [p |-> {}, c |-> {}] /\ op' = Idle /\ bad' = FALSE
 
 Event(e) ==
   /\ CASE e.ev = "evict" -> prep' = [prep EXCEPT ![e.node + 1] = {}] /\ UNCHANGED <<ver, lay, salt>>
@@ -50,9 +51,11 @@ Event(e) ==
        [] e.ev = "alter_evict" -> ver' = ver + 1 /\ lay' = [lay EXCEPT !.extra = @ + 1] /\ prep' = <<{}, {}>> /\ UNCHANGED salt
        [] e.ev = "rename_evict" -> ver' = ver + 1 /\ lay' = [lay EXCEPT !.bgen = ver + 1] /\ prep' = <<{}, {}>> /\ UNCHANGED salt
        [] e.ev = "idchange" -> salt' = [salt EXCEPT ![e.node + 1] = 1] /\ prep' = [prep EXCEPT ![e.node + 1] = {}] /\ UNCHANGED <<ver, lay>>
-  /\ UNCHANGED <<ext, skipopt, base, cols, mids, cached, op, bad>>
+  /\ UNCHANGED <<ext, skipopt, base, cols, mids, cached, snap, op, bad>>
 
-BeginOp(e) == /\ op' = [Idle EXCEPT !.op = e.op, !.hd = e.hd, !.node = e.node + 1, !.pk = e.pk]
+\* e.pair: 0 an execution on its own; 1 / 2 the members of a pair issued at once (one per node), judged one after the other
+BeginOp(e) == /\ op' = [Idle EXCEPT !.op = e.op, !.pair = e.pair, !.hd = e.hd, !.node = e.node + 1, !.pk = e.pk]
+              /\ snap' = IF e.pair = 1 THEN mids ELSE snap
               /\ UNCHANGED <<ext, skipopt, ver, lay, prep, salt, base, cols, mids, cached, bad>>
 
 \* ------------------------------------------------------------------ frames
@@ -67,7 +70,7 @@ Prepare(f, n) ==
   /\ Chk(/\ f.reply = "prepared"
          /\ (known => (f.reply_id = base[s]) = ours)                                       \* the model's id
          /\ f.reply_mid = (IF ext[n] = 1 THEN Some(Mid(ver)) ELSE None)
-         /\ f.reply_ncols = (IF s = "select" THEN 2 + lay.extra ELSE 0)
+         /\ f.reply_ncols = (IF s # "select" THEN 0 ELSE IF ours THEN 2 + lay.extra ELSE 1)   \* (the other statement of an id-changing node has one column)
          \* a PREPARE inside an execution only to re-prepare what that node reported unprepared
          /\ (op.op \in {"exec", "exec_paged", "batch"} => making \/ op.pend = <<n, s>>),
          "prepare frame")
@@ -83,7 +86,7 @@ Prepare(f, n) ==
   /\ op' = IF op.op = "idle" THEN op
            ELSE IF making THEN [op EXCEPT !.n = @ + 1]
            ELSE [op EXCEPT !.n = @ + 1, !.pend = IF ours THEN <<n, "again">> ELSE <<0, "none">>, !.failed = IF ours THEN @ ELSE 1]
-  /\ UNCHANGED <<ext, skipopt, ver, lay, salt, cached>>
+  /\ UNCHANGED <<ext, skipopt, ver, lay, salt, cached, snap>>
 
 Execute(f, n) ==
   LET s == f.stmt
@@ -97,7 +100,8 @@ Execute(f, n) ==
          /\ f.values = <<PkBytes(op.pk)>>
          /\ (firstOfOp => n = op.node)
          /\ (ext[n] = 0 => f.rmid = None)
-         /\ (ext[n] = 1 => f.rmid.some = 1 /\ (f.rmid.v \in mids[hd] \/ (f.rmid.v = << >> /\ mids[hd] \subseteq {<< >>})))
+         /\ (ext[n] = 1 => f.rmid.some = 1 /\ (f.rmid.v \in mids[hd] \/ (f.rmid.v = << >> /\ mids[hd] \subseteq {<< >>})
+                                                          \/ (op.pair = 2 /\ firstOfOp /\ f.rmid.v \in snap[hd])))
          /\ (op.pend[2] # "none" => op.pend = <<n, "again">> /\ f.paging = op.first.paging)     \* the same request again, after the re-preparation
          /\ f.reply = reply
          /\ (reply = "unprepared" => f.reply_id = f.id)
@@ -111,7 +115,7 @@ Execute(f, n) ==
                       !.pages = IF reply \in {"rows_meta", "rows_meta_newid"} THEN Append(@, [paging |-> f.paging, ncols |-> lay, true |-> lay, ver |-> ver])
                                 ELSE IF reply = "rows_nometa" THEN Append(@, [paging |-> f.paging, ncols |-> cols[hd], true |-> lay, ver |-> ver])
                                 ELSE @]
-  /\ UNCHANGED <<ext, skipopt, ver, lay, prep, salt, base, cached>>
+  /\ UNCHANGED <<ext, skipopt, ver, lay, prep, salt, base, cached, snap>>
 
 Batch(f, n) ==
   LET missing == IF "insert" \notin prep[n] THEN "insert" ELSE IF "insert2" \notin prep[n] THEN "insert2" ELSE "none"
@@ -125,7 +129,7 @@ Batch(f, n) ==
          "batch frame")
   /\ op' = [op EXCEPT !.n = @ + 1, !.pend = IF reply = "unprepared" THEN <<n, missing>> ELSE <<0, "none">>,
                       !.pages = IF reply = "void" THEN Append(@, [paging |-> None, ncols |-> lay, true |-> lay, ver |-> ver]) ELSE @]
-  /\ UNCHANGED <<ext, skipopt, ver, lay, prep, salt, base, cols, mids, cached>>
+  /\ UNCHANGED <<ext, skipopt, ver, lay, prep, salt, base, cols, mids, cached, snap>>
 
 Frame(f) == LET n == f.node + 1 IN
   CASE f.opcode = 9 -> Prepare(f, n) [] f.opcode = 10 -> Execute(f, n) [] f.opcode = 13 -> Batch(f, n)
@@ -151,7 +155,7 @@ Result(r) ==
          "result")
   /\ op' = Idle
   /\ cached' = (cached \/ (op.hd = "c" /\ op.ne > 0))
-  /\ UNCHANGED <<ext, skipopt, ver, lay, prep, salt, base, cols, mids>>
+  /\ UNCHANGED <<ext, skipopt, ver, lay, prep, salt, base, cols, mids, snap>>
 
 Step(e) == CASE e.t = "reset" -> Reset(e) [] e.t = "ev" -> Event(e) [] e.t = "op" -> BeginOp(e)
              [] e.t = "frame" -> Frame(e) [] e.t = "result" -> Result(e)
